@@ -842,6 +842,8 @@ def theorem_instances(ctx, scn, real, replies):
         got = collections.Counter(tuple(u[1]) for u in a["obs"] if u[0] == "up")
         for x, want in homes.items():
             n_inst += 1
+            if want != (0 if x == o else 1):
+                ctx.count("theorem-instance-echo")
             if hyp.get("noecho") and want != (0 if x == o else 1):
                 raise core.Infra("driver predicts %d copies under NoEcho" % want)
             if got[x] != want:
